@@ -204,6 +204,11 @@ def gen(rng, tier):
     for g in range(0, 30 if tier == "quick" else 40):
         a, b = rng.choice([("l", "l1"), ("l,s", "l,s,o"), ("t", "t3"), ("s2", "s")])
         add("hist/crash", "hist S:%s:-:%d X C:%d:%s S:%s:-:%d X S:%s:-:%d T E" % (a, cat_of(a), g, b, b, cat_of(b), b, cat_of(b)))
+    # the very FIRST start on a storage is killed at every crash point of its file writes (the accessory's entity, the id, the
+    # version, the hash), then started again: one identity, discoverable, and a controller can pair
+    for g in range(0, 26 if tier == "quick" else 34):
+        st = rng.choice(["l", "l,s", "t", "s2"])
+        add("hist/crash-first", "hist C:%d:%s S:%s:-:%d T E PS:c1 T E X S:%s:-:%d T E" % (g, st, st, cat_of(st), st, cat_of(st)))
     # a controller pairing under the accessory's own device id (recorded finding)
     add("hist/self", "hist S:l:-:5 E PSELF T E X S:l:-:5 T E")
     add("hist/self", "hist S:l,s:-:2 PS:c1 T PSELF T E S:l,s:-:2 T E")
@@ -441,7 +446,7 @@ def oracle(c, obs):
 def same(c, g, m):
     # histories with an interrupted start have no model line (the crash point is a run-time notion): the oracle decides,
     # the save order they depend on is covered by C20_interrupted_start_still_increases
-    return g == m or c["kind"] == "hist/crash"
+    return g == m or c["kind"] in ("hist/crash", "hist/crash-first")
 
 
 def nontrivial(c):
